@@ -204,7 +204,7 @@ def view(ev, strict, drop_cd=False, drop_er=False, drop_unspecified=False, skip_
             continue
         if in_dt:
             if not skip_dt:
-                out.append(tuple(x if x is not None else '' for x in e) if t in ('DE', 'DN') else e)
+                out.append(tuple(x if x is not None else '' for x in e) if t in ('DE', 'DN', 'DIS') else e)
             continue
         if t in ('SER', 'EER'):
             if t == 'SER':
@@ -1170,14 +1170,15 @@ class Judge:
         sb = view(o.B, True)
         strict_equal = (sa == sb) and (o.tlA == o.tlB)
         # absent vs empty public/system identifiers: the dump distinguishes them, DOM does not say which a parser must produce
-        ids_a = [tuple(e[1:]) for e in o.A if e[0] in ('DT', 'DE', 'DN')]
-        ids_b = [tuple(e[1:]) for e in o.B if e[0] in ('DT', 'DE', 'DN')]
+        ids_a = [tuple(e[1:]) for e in o.A if e[0] in ('DT', 'DE', 'DN', 'DIS')]
+        ids_b = [tuple(e[1:]) for e in o.B if e[0] in ('DT', 'DE', 'DN', 'DIS')]
         null_vs_empty = ids_a != ids_b and [tuple(x or '' for x in t) for t in ids_a] == [tuple(x or '' for x in t) for t in ids_b]
+        nve = 'subset' if [e[1] for e in o.A if e[0] == 'DIS'] != [e[1] for e in o.B if e[0] == 'DIS'] else 'id'
         if o.eq is None:
             self.viol('C12:isEqualNode:exception', 'isEqualNode threw', c, o, exc=o.eqexc)
         else:
             if o.eq[0] != o.eq[1]:
-                self.viol('C12:isEqualNode:asymmetric' + (':null-vs-empty-id' if null_vs_empty else ''), 'a.isEqualNode(b) != b.isEqualNode(a)', c, o)
+                self.viol('C12:isEqualNode:asymmetric' + (':null-vs-empty-' + nve if null_vs_empty else ''), 'a.isEqualNode(b) != b.isEqualNode(a)', c, o)
             elif null_vs_empty:
                 st['isEqualNode_undecided_null_vs_empty'] += 1
             elif o.eq[0] and not strict_equal:
@@ -1241,7 +1242,17 @@ class Judge:
                 self.viol('C12:reparse-not-equal:' + named, 'the re-parsed tree is not equal to the serialised tree; the difference is exactly the modelled loss "%s"' % named, c, o, diff=repr(d)[:800])
                 return False
             kind = diff_kind(d)
-            if cls.startswith('ns-') or (cls.startswith('parsed-rmxmlns') or cls.endswith('+normalize')) and kind in ('element-ns', 'attr-ns', 'attr-set:xmlns'):
+            nsloss = None
+            if kind == 'element-ns' and d[1][2] is None and d[2][2] is not None and ':' not in d[1][1]:
+                nsloss = 'nsfixup-default-namespace-not-undeclared'       # an element in no namespace re-parses into the inherited default namespace
+            elif kind == 'attr-ns':
+                na, nb = dict((x[0], x) for x in d[1][4]), dict((x[0], x) for x in d[2][4])
+                bad = [k for k in sorted(na) if na[k][1] != nb[k][1]]
+                if bad and all(':' not in k and na[k][1] is not None and nb[k][1] is None for k in bad):
+                    nsloss = 'nsfixup-attr-namespace-without-prefix'      # attribute with a namespace but no prefix: written bare
+            if nsloss:
+                key = 'C12:reparse-not-equal:' + nsloss
+            elif cls.startswith('ns-') or (cls.startswith('parsed-rmxmlns') or cls.endswith('+normalize')) and kind in ('element-ns', 'attr-ns', 'attr-set:xmlns'):
                 key = 'C12:reparse-not-equal:%s:%s' % (cls, kind)
             else:
                 td = first_text_diff(la, lb)
@@ -1269,6 +1280,11 @@ class Judge:
             if lb != view(o.B, False, **kw):
                 # fix-up supplied declarations: the re-parsed tree has them as attributes, which are written at their sorted position
                 st['reserialise_undecided_after_fixup'] += 1
+                return True
+            if int(c.opt.get('normalize', 0)) and isinstance(o.out2, bytes) and sorted(o.out) == sorted(o.out2):
+                # normalizeDocument re-prefixed an attribute in place: the attribute map of A is no longer in name order (C13's finding
+                # attr-map-out-of-order), B's is; the two outputs are permutations of each other
+                st['reserialise_undecided_attribute_order_after_normalize'] += 1
                 return True
             if not ents and any(o.A[i][0] == 'SER' and o.A[i + 1][0] == 'EER' for i in range(len(o.A) - 1)):
                 # entities=false drops an entity reference without content: <e></e> the first time, <e/> the second
